@@ -33,8 +33,10 @@ def gen(rng):
     tags = set()
     if rng.random() < 0.7:
         wm = world.gen_world_model(rng, use_cache=rng.choice([False, None]), nfiles=rng.randrange(1, 5),
-                                   sizes=["tiny", "tiny", "k8"], p_have=0.4, max_stmts=5, min_missing=rng.choice([0, 1, 1, 2]),
-                                   crlf_p=0.25, lock="absent")
+                                   sizes=["tiny", "tiny", "k8"], p_have=rng.choice([0.4, 0.4, 1.0]), id_hi=300, max_stmts=5,
+                                   min_missing=rng.choice([0, 0, 1, 1, 2]), crlf_p=0.25,
+                                   lock=rng.choice(["absent", "absent", "ahead"]),
+                                   special_ids=rng.choice([None, [0], [0]]), unicode_p=rng.choice([0, 0.2]))
         for p, segs in wm["files"].items():
             for s in segs:
                 if s[0] == "stmt" and rng.random() < 0.6 and s[2].startswith("    "):
